@@ -4,36 +4,82 @@ From Juniper Require Import Common.Base Deque.Model Deque.Spec Deque.Proofs.
 
 Section C04.
   Context {T : Type} (zero : T) (minSize growMul : Z).
-  (* guards on the regenerated constants; discharged for the shipped values in Generated/ParamsOK.v *)
+  (* guards on the regenerated constants; discharged for the shipped values below.  The upper bound
+     keeps len(d.a)*growMul inside int64 for every capacity make can return. *)
   Hypothesis Hmin : 1 <= minSize.
-  Hypothesis Hgrow : 2 <= growMul.
+  Hypothesis Hgrow : 2 <= growMul <= 32768.
 
   Notation run := (run zero minSize growMul).
   Notation run_state := (run_state zero minSize growMul).
   Notation step := (step zero minSize growMul).
+  Notation alloc_fails := (alloc_fails minSize growMul).
+  Notation in_budget := (in_budget minSize growMul).
 
-  (* every call returns what the ideal sequence returns, for every history from the zero value *)
+  (* Allocation.  make([]T, c) panics for c < 0 or c > alloc_max (Model.v); [alloc_fails d o] says
+     that the allocation operation o performs in state d is such a one (Spec.v: the int64 sums and
+     products are wrapped).  The ideal sequence has no capacity: it knows that Grow(n) with
+     n > alloc_max panics ([grow_too_big], whatever the capacity), and nothing about requests up to
+     alloc_max.  Hence two kinds of statements:
+       - over ALL histories, with the allocator's verdict explicit (C04_step_exact, C04_grow_alloc,
+         C04_panics_exact, C04_grow_shrink_preserve, C04_no_retention);
+       - against the ideal sequence alone, for the histories [in_budget]: those whose pushes and
+         Grow arguments (the ones that are not too big) cannot make the implementation request more
+         than alloc_max slots -- every history a machine can run (C04_refinement, C04_abs). *)
+
+  (* every call returns what the ideal sequence returns, for every history from the zero value;
+     histories may contain any number of Grow calls whose allocation fails *)
   Theorem C04_refinement : forall ops,
-      forallb seq_op ops = true -> run st0 ops = srun [] ops.
+      forallb seq_op ops = true -> in_budget ops -> run st0 ops = srun [] ops.
   Proof. exact (deque_refinement zero minSize growMul Hmin Hgrow). Qed.
 
   (* the live window of the buffer is the ideal sequence after every history (iterator ops included) *)
-  Theorem C04_abs : forall ops, window (sd (run_state st0 ops)) = srun_state [] ops.
+  Theorem C04_abs : forall ops, in_budget ops ->
+      window (sd (run_state st0 ops)) = srun_state [] ops.
   Proof. exact (deque_abs zero minSize growMul Hmin Hgrow). Qed.
 
+  (* ALL histories, one more operation: if its allocation fails it panics and nothing at all
+     changes; otherwise it returns what the ideal sequence returns and the window follows it *)
+  Theorem C04_step_exact : forall ops o,
+      seq_op o = true ->
+      let s := run_state st0 ops in
+      if alloc_fails (sd s) o then step s o = (s, OPanic)
+      else snd (step s o) = snd (sstep (window (sd s)) o) /\
+           window (sd (fst (step s o))) = fst (sstep (window (sd s)) o).
+  Proof. exact (deque_step_exact zero minSize growMul Hmin Hgrow). Qed.
+
+  (* ALL histories: Grow panics exactly when its allocation fails, and then the whole state
+     (contents, buffer and capacity, front and back offsets, iterator generation, live iterators) is
+     the one before the call; every other Grow keeps the contents; an argument beyond alloc_max
+     always fails *)
+  Theorem C04_grow_alloc : forall ops n,
+      let s := run_state st0 ops in
+      let d := sd s in
+      (grow zero n d = Panic PAlloc <-> alloc_fails d (OpGrow n) = true) /\
+      (alloc_fails d (OpGrow n) = true -> step s (OpGrow n) = (s, OPanic)) /\
+      (alloc_fails d (OpGrow n) = false -> exists d', grow zero n d = Ok d' /\ window d' = window d) /\
+      (grow_too_big n = true -> alloc_fails d (OpGrow n) = true).
+  Proof. exact (deque_grow_alloc zero minSize growMul Hmin Hgrow). Qed.
+
+  (* ALL histories: Grow/Shrink never change the contents; Shrink panics exactly for n < 0 and its
+     allocation never fails *)
   Theorem C04_grow_shrink_preserve : forall ops n,
       let d := sd (run_state st0 ops) in
-      window (grow zero n d) = window d /\
+      (forall d', grow zero n d = Ok d' -> window d' = window d) /\
       (forall d', shrink zero n d = Ok d' -> window d' = window d) /\
-      (shrink zero n d = Panic PNeg <-> n < 0).
+      (shrink zero n d = Panic PNeg <-> n < 0) /\
+      (0 <= n -> exists d', shrink zero n d = Ok d').
   Proof. exact (deque_grow_shrink_preserve zero minSize growMul Hmin Hgrow). Qed.
 
-  (* panics happen exactly where the ideal sequence says, and leave the state unchanged *)
+  (* panics happen exactly where the ideal sequence says or where an allocation fails, and leave
+     the state unchanged; within the budget the ideal sequence alone decides *)
   Theorem C04_panics_exact : forall ops o,
       seq_op o = true ->
       let s := run_state st0 ops in
-      (snd (step s o) = OPanic <-> must_panic (window (sd s)) o = true) /\
-      (snd (step s o) = OPanic -> fst (step s o) = s).
+      (snd (step s o) = OPanic <->
+         must_panic (window (sd s)) o = true \/ alloc_fails (sd s) o = true) /\
+      (snd (step s o) = OPanic -> fst (step s o) = s) /\
+      (in_budget (ops ++ [o]) ->
+         (snd (step s o) = OPanic <-> must_panic (window (sd s)) o = true)).
   Proof. exact (deque_panics_exact zero minSize growMul Hmin Hgrow). Qed.
 
   (* popped elements are not retained: slots outside the live window hold the zero value *)
@@ -43,6 +89,8 @@ End C04.
 
 Print Assumptions C04_refinement.
 Print Assumptions C04_abs.
+Print Assumptions C04_step_exact.
+Print Assumptions C04_grow_alloc.
 Print Assumptions C04_grow_shrink_preserve.
 Print Assumptions C04_panics_exact.
 Print Assumptions C04_no_retention.
@@ -50,11 +98,11 @@ Print Assumptions C04_no_retention.
 (* ---- the shipped constants (regenerated from the Go source on every run) meet the guards ---- *)
 From Juniper Require Import Generated.Params.
 
-Theorem C04_params_ok : 1 <= deque_minSize /\ 2 <= deque_growMul.
+Theorem C04_params_ok : 1 <= deque_minSize /\ 2 <= deque_growMul <= 32768.
 Proof. unfold deque_minSize, deque_growMul; split; lia. Qed.
 
 Theorem C04_refinement_shipped : forall ops : list (op Z),
-    forallb seq_op ops = true ->
+    forallb seq_op ops = true -> in_budget deque_minSize deque_growMul ops ->
     run 0 deque_minSize deque_growMul st0 ops = srun [] ops.
 Proof. exact (C04_refinement 0 deque_minSize deque_growMul (proj1 C04_params_ok) (proj2 C04_params_ok)). Qed.
 
@@ -65,13 +113,50 @@ Proof. exact (C04_no_retention 0 deque_minSize deque_growMul (proj1 C04_params_o
 (* non-vacuity: a history that wraps, fills, reallocates and shrinks to capacity 0 *)
 Example C04_history_runs :
   let ops := [OpPushBack 1; OpPushFront 2; OpPopBack; OpShrink 0; OpPushFront 3; OpGrow 40; OpIterate; OpPopFront; OpPopFront; OpShrink 0; OpLen] in
+  in_budget deque_minSize deque_growMul ops /\
   run 0 deque_minSize deque_growMul st0 ops = srun [] ops /\
   srun [] ops = [OUnit; OUnit; OVal 1; OUnit; OUnit; OUnit; OList [3; 2]; OVal 3; OVal 2; OUnit; OInt 0].
-Proof. vm_compute. split; reflexivity. Qed.
+Proof. split; [apply Z.leb_le; vm_compute; reflexivity|]. vm_compute. split; reflexivity. Qed.
+
+(* non-vacuity for the allocation failure: front <> 0 and the live window wraps around the end of
+   the buffer; Grow(max int64), Grow(max int64 - 16) (the sum does not wrap: 2^63-1 elements) and
+   Grow(2^62-1) panic; Item / Iterate / Pop still return the right elements, and the raw state
+   (nil?, cap, front, back, slots) and the generation are the ones before the calls *)
+Example C04_grow_alloc_failure_runs :
+  let pre := [OpPushBack 1; OpPushBack 2; OpPushBack 3; OpPopFront; OpPushFront 4; OpPushFront 5; OpPushFront 6] in
+  let grows := [OpGrow 9223372036854775807; OpGrow 9223372036854775791; OpGrow 4611686018427387903] in
+  let post := [OpItem 0; OpItem 4; OpIterate; OpLen; OpPopFront; OpPopBack; OpGrow 3; OpIterate] in
+  let ops := pre ++ grows ++ post in
+  let d := sd (run_state 0 deque_minSize deque_growMul st0 pre) in
+  let d' := sd (run_state 0 deque_minSize deque_growMul st0 (pre ++ grows)) in
+  in_budget deque_minSize deque_growMul ops /\
+  forallb (fun o => alloc_fails deque_minSize deque_growMul d o) grows = true /\
+  (front d, back d, cap d) = (14, 2, 16) /\
+  raw d' = raw d /\ gen d' = gen d /\
+  run 0 deque_minSize deque_growMul st0 ops = srun [] ops /\
+  srun [] ops = [OUnit; OUnit; OUnit; OVal 1; OUnit; OUnit; OUnit;
+                 OPanic; OPanic; OPanic;
+                 OVal 6; OVal 3; OList [6; 5; 4; 2; 3]; OInt 5; OVal 6; OVal 3; OUnit; OList [5; 4; 2]].
+Proof. split; [apply Z.leb_le; vm_compute; reflexivity|]. vm_compute. repeat split; reflexivity. Qed.
+
+(* the broken variant "resize writes front := 0, back := oldLen-1, gen++ before calling make"
+   (Model.grow_commit_first): the statement C04_grow_alloc makes for the real code --
+     after a Grow whose allocation fails the contents and the generation are unchanged --
+   is false for it: on the wrapped deque above, after the recovered panic the contents differ. *)
+Theorem C04_grow_commit_first_refuted :
+  exists (ops : list (op Z)) (n : Z),
+    let d := sd (run_state 0 16 2 st0 ops) in
+    snd (grow_commit_first 0 n d) = true /\
+    window (fst (grow_commit_first 0 n d)) <> window d /\
+    gen (fst (grow_commit_first 0 n d)) <> gen d /\
+    grow 0 n d = Panic PAlloc.
+Proof. exact deque_grow_commit_first_refuted. Qed.
 
 Print Assumptions C04_params_ok.
 Print Assumptions C04_refinement_shipped.
 Print Assumptions C04_no_retention_shipped.
+Print Assumptions C04_grow_alloc_failure_runs.
+Print Assumptions C04_grow_commit_first_refuted.
 
 (* ---- translator tie: Deque.Len and positiveMod, translated from the Go source on every run
         (Generated/Funcs.v), are the definitions the model uses ---- *)
